@@ -16,6 +16,18 @@ from autograd.core import make_vjp as core_vjp, make_jvp as core_jvp
 warnings.simplefilter("ignore")
 
 
+from autograd.extend import primitive as _primitive, defvjp as _defvjp, defjvp as _defjvp  # noqa: E402
+
+
+@_primitive
+def fma3(a, b, c):
+    return a * b + c
+
+
+_defvjp(fma3, lambda ans, a, b, c: lambda g: g * b, lambda ans, a, b, c: lambda g: g * a, lambda ans, a, b, c: lambda g: g)
+_defjvp(fma3, lambda g, ans, a, b, c: g * b, lambda g, ans, a, b, c: g * a, lambda g, ans, a, b, c: g)
+
+
 def poly(rng):
     """p(x, y) = sum c_ij x^i y^j with small integer coefficients"""
     cs = {(i, j): rng.randint(-2, 2) for i in range(3) for j in range(3)}
@@ -32,7 +44,7 @@ def main():
     rng = random.Random(cfg["seed"])
     out = {"n": 0, "keys": [], "bad": [], "dist": {}}
     outers = {"grad": lambda h, x0: grad(h)(x0), "deriv": lambda h, x0: deriv(h)(x0),
-              "value_and_grad": lambda h, x0: value_and_grad(h)(x0)[1], "make_vjp": lambda h, x0: make_vjp(h)(x0)[0](1.0),
+              "value_and_grad": lambda h, x0: value_and_grad(h)(x0)[1], "make_vjp": lambda h, x0: make_vjp(h)(x0)[0](onp.array(1.0)),
               "make_jvp": lambda h, x0: make_jvp(h)(x0)(1.0)[1], "jacobian": lambda h, x0: jacobian(h)(x0),
               "elementwise_grad": lambda h, x0: elementwise_grad(h)(x0)}
     for rep in range(cfg["n"]):
@@ -60,6 +72,29 @@ def main():
             "core make_jvp": (lambda x: core_jvp(lambda y: f(x, y), y0)(1.0)[1], dy),
             "vector_jacobian_product": (lambda x: vector_jacobian_product(lambda y: f(x, y))(y0, 1.0), dy),
         }
+        # an inner function that ignores its own variable but uses the enclosing one: its value still carries the outer dependence
+        indep = lambda x, y: 3.0 * x * x + x    # noqa: E731
+        inners.update({
+            "value_and_grad[0] of a y-independent function": (lambda x: value_and_grad(lambda y: indep(x, 0.0))(y0)[0], indep),
+            "make_vjp value of a y-independent function": (lambda x: make_vjp(lambda y: indep(x, 0.0))(y0)[1], indep),
+            "make_jvp value of a y-independent function": (lambda x: make_jvp(lambda y: indep(x, 0.0))(y0)(1.0)[0], indep),
+            "core make_vjp value of a y-independent function": (lambda x: core_vjp(lambda y: indep(x, 0.0), y0)[1], indep),
+            "grad_and_aux aux of a y-independent function": (lambda x: grad_and_aux(lambda y: (y * 1.0, indep(x, 0.0)))(y0)[1], indep),
+            "grad of a y-independent function (zero), plus x": (lambda x: grad(lambda y: indep(x, 0.0))(y0) + x * x, lambda x, y: x * x),
+            "deriv of a y-independent function (zero), plus x": (lambda x: deriv(lambda y: indep(x, 0.0))(y0) + x * x, lambda x, y: x * x),
+        })
+        # one primitive call that sees three or more traced arguments of DIFFERENT nesting levels, in every order
+        one = onp.ones(1)
+        builders = {"array": lambda a, b, c: anp.prod(anp.array([a, b, c])), "stack": lambda a, b, c: anp.prod(anp.stack([a, b, c])),
+                    "hstack": lambda a, b, c: anp.prod(anp.hstack([a, b, c])), "concatenate": lambda a, b, c: anp.prod(anp.concatenate([a * one, b * one, c * one])),
+                    "einsum": lambda a, b, c: anp.einsum("i,i,i->", a * one, b * one, c * one), "fma": lambda a, b, c: fma3(a, b, c) * c - c * c,
+                    "where": lambda a, b, c: anp.where(onp.array(True), a * c, b) * b, "array nested": lambda a, b, c: anp.prod(anp.array([[a, b], [c, 1.0]])),
+                    "vstack": lambda a, b, c: anp.prod(anp.vstack([a, b, c]))}
+        for bname, bld in builders.items():
+            for pat, arrange, tr in (("y,x,y", lambda x, y: (y, x, y), lambda x, y: 2.0 * y * x), ("x,y,x", lambda x, y: (x, y, x), lambda x, y: x * x),
+                                     ("y,y,x", lambda x, y: (y, y, x), lambda x, y: 2.0 * y * x), ("x,y,y", lambda x, y: (x, y, y), lambda x, y: 2.0 * y * x)):
+                inners["%s(%s) in grad" % (bname, pat)] = ((lambda x, bld=bld, arrange=arrange: grad(lambda y: bld(*arrange(x, y)))(y0)), tr)
+                inners["%s(%s) in deriv" % (bname, pat)] = ((lambda x, bld=bld, arrange=arrange: deriv(lambda y: bld(*arrange(x, y)))(y0)), tr)
         for iname, (h, truth) in inners.items():
             for oname, op in outers.items():
                 out["n"] += 1
